@@ -38,6 +38,18 @@ CLAIMED = {
          "contract-based deductive verification (govc WP over go/ssa, z3/cvc5)",
          "Configure.Initialize, Factory.PrepareComponents and Factory.Refresh are interface-level contracts (assumed here; Refresh setting "
          "Refreshed only when every eager component is initialised is C05's obligation); non-nil injected runners is a named site assumption. " + TRUST),
+
+ "C15": ("proof",
+         "The loader list is an abstract sequence (model fields NLoaders/LoaderAt bound to the representation); AddLoaders appends and "
+         "keeps every earlier entry, SetLoaders replaces; each source-adding option closure (SetConfig, AddConfigLoader) is verified to "
+         "append; Default installs exactly the command-line loader and a binder; loadConfigure invokes the loaders in the sequence of the "
+         "ordering contract (files first as class 0/Order 0, the others in the order they were added), feeds every non-empty output "
+         "unchanged to Binder.SetConfig in that same order, and stops at the first error (ghost load/feed trace, loop invariant).",
+         "DESIGN.md section 5 C15",
+         "contract-based deductive verification (govc WP over go/ssa, z3/cvc5)",
+         "That feeding documents to viper.MergeConfig in order yields a deep merge where the last one wins and single-source keys stay "
+         "visible is a property of the third-party library (A-LIB), assumed, not proved; ArgsLoader's YAML rendering likewise. "
+         "Configure is assumed wired with a non-nil binder and non-nil loaders (established by Default; not re-proved through options). " + TRUST),
 }
 
 NOT_APPLICABLE = {
